@@ -44,6 +44,7 @@ func registerGhosts(v *Verifier) {
 	v.ghostFuns["validValAddr"] = ghostSig{[]string{sortStr}, "Bool"}
 	v.ghostFuns["decFromStr"] = ghostSig{[]string{sortStr}, "Int"}
 	v.ghostFuns["decFromStrOk"] = ghostSig{[]string{sortStr}, "Bool"}
+	v.ghostFuns["blockedAddr"] = ghostSig{[]string{sortAddr}, "Bool"}
 	v.ghostFuns["strcontains"] = ghostSig{[]string{sortStr, sortStr}, "Bool"}
 	v.ghostFuns["strhasprefix"] = ghostSig{[]string{sortStr, sortStr}, "Bool"}
 	v.ghostFuns["strlen"] = ghostSig{[]string{sortStr}, "Int"}
@@ -588,7 +589,7 @@ func coinsShape(e *Enc, coins string) (string, string, string) {
 
 func bankRules() {
 	// transfer(from, to, coins): error (no change) iff coins invalid or balance insufficient; panic iff module account missing.
-	transfer := func(cc *callCtx, from, to, coins string, mint bool) string {
+	transfer := func(cc *callCtx, from, to, coins string, mint bool, toAccount ...bool) string {
 		e := cc.e
 		e.ensureState("bank", bankSrt)
 		bank := e.getState("bank")
@@ -600,6 +601,11 @@ func bankRules() {
 		okc := fmt.Sprintf("(or (= %s 0) (and (= %s 1) (> %s 0) (>= (select (select %s %s) %s) %s)))", ln, ln, a, bank, from, d, a)
 		if mint {
 			okc = fmt.Sprintf("(or (= %s 0) (and (= %s 1) (> %s 0)))", ln, ln, a)
+		}
+		if len(toAccount) > 0 && toAccount[0] {
+			// SendCoinsFromModuleToAccount refuses recipients on the application's blocked list (module accounts)
+			e.g().DeclFun("blockedAddr", []string{sortAddr}, "Bool")
+			okc = fmt.Sprintf("(and %s (not (blockedAddr %s)))", okc, to)
 		}
 		// only the empty and the single-coin shape are specified; for longer coin sets the result is unconstrained
 		e.r.assume(fmt.Sprintf("(=> (<= %s 1) (= (= %s 0) %s))", ln, err, okc))
@@ -640,7 +646,7 @@ func bankRules() {
 				return []string{transfer(cc, cc.arg(2), modAddr(cc, 3), cc.arg(4), false)}, true
 			}
 			extRules[p+"SendCoinsFromModuleToAccount"] = func(cc *callCtx) ([]string, bool) {
-				return []string{transfer(cc, modAddr(cc, 2), cc.arg(3), cc.arg(4), false)}, true
+				return []string{transfer(cc, modAddr(cc, 2), cc.arg(3), cc.arg(4), false, true)}, true
 			}
 			extRules[p+"SendCoinsFromModuleToModule"] = func(cc *callCtx) ([]string, bool) {
 				return []string{transfer(cc, modAddr(cc, 2), modAddr(cc, 3), cc.arg(4), false)}, true
